@@ -1,6 +1,7 @@
 package checks
 
 import (
+	"errors"
 	"bytes"
 	"encoding/hex"
 	"encoding/json"
@@ -115,6 +116,7 @@ func abortAPI(port int, q apiQuery, pause time.Duration, hard bool) error {
 }
 
 var reFactomHeight = regexp.MustCompile(`"factomheight":-?[0-9]+`)
+var reStopHeight = regexp.MustCompile(`"stopheight":-?[0-9]+`)
 var rePusd = regexp.MustCompile(`,"pusd":[0-9]+`)
 var rePusdOnly = regexp.MustCompile(`"pusd":[0-9]+`)
 
@@ -136,17 +138,15 @@ func responseParts(q apiQuery, raw []byte) []string {
 	case "get-rich-list":
 		return []string{rePusd.ReplaceAllString(res, "")}
 	case "get-global-rich-list":
-		// only the set of addresses is compared (the pUSD equivalents come from the cache under test)
-		var l []struct {
-			Address string `json:"address"`
-		}
-		json.Unmarshal(env.Result, &l)
-		var as []string
-		for _, x := range l {
-			as = append(as, x.Address)
-		}
-		sort.Strings(as)
-		return []string{strings.Join(as, ",")}
+		// Not compared: the ranking combines balances, rates and averages read one after the other, so an
+		// answer may legitimately mix two committed states and match the reference of neither. The handler
+		// still runs under the race detector, and what it does to shared state shows in the ledger differential.
+		return []string{"global-rich-list (answer not compared)"}
+	case "get-miner-distribution":
+		// the range is derived from the sync height (first read) and clamped to the newest height with
+		// winners (second read): "stopheight" may come from a later committed state than the rest. The rows
+		// of committed heights never change, so everything else must equal the reference of ONE height.
+		return []string{reStopHeight.ReplaceAllString(res, `"stopheight":0`)}
 	case "get-transactions", "get-transaction":
 		var r struct {
 			Actions    json.RawMessage `json:"actions"`
@@ -325,6 +325,19 @@ func c18Prep(j *orch.Job, r *orch.Result) error {
 		n.Run()
 		for h := e.Pegnet + 1; h <= tip; h++ {
 			if err := n.WaitSynced(h, harness.WaitOpts{}); err != nil {
+				if h >= first && (errors.Is(err, harness.ErrFatal) || errors.Is(err, harness.ErrWedged)) {
+					// the very same chain was applied without any API request a moment ago (ForgeChain above): the only
+					// difference is that the lab asked its questions, one at a time, between two blocks
+					kind := "wedged"
+					if errors.Is(err, harness.ErrFatal) {
+						kind = "fatal"
+					}
+					r.Violate("C18", "sync-stopped-by-sequential-api-requests kind="+kind,
+						fmt.Sprintf("block %d could not be applied after the API had answered %d read requests between blocks (no two requests at the same time, none during a block); the same chain syncs without API requests. %v; last daemon error: %s", h, len(Q), err, harness.LastDaemonError()),
+						map[string]interface{}{"seed": p.Seed, "height": h})
+					r.Info["prep_failed"] = true
+					return nil
+				}
 				return err
 			}
 			if h < first-1 {
@@ -349,7 +362,16 @@ func c18Prep(j *orch.Job, r *orch.Result) error {
 			refAns[h] = ans
 		}
 		_, _ = stop, done // the server is left running until the process exits (srv.Shutdown(nil) can panic with live connections)
+		seq, derr := harness.TakeDump(n.RO, harness.DumpOptions{DropBackfill: true, KeepRows: true})
 		n.Stop()
+		if derr != nil {
+			return derr
+		}
+		r.Count("sequential_differential_pairs", 1)
+		if seq.Total != ref.Total {
+			r.Violate("C18", "ledger-changed-by-sequential-api-requests", "the ledger computed while the API answered read requests between blocks differs from the ledger computed without any request\n"+joinLines(harness.DiffDumps(ref, seq), 8),
+				map[string]interface{}{"seed": p.Seed})
+		}
 	}
 	r.Count("reference_answers", int64(len(refAns)*len(Q)))
 	prep := &c18Prepared{Q: Q, Ref: refAns, First: first, Tip: tip, Final: ref.Total, Tables: ref.Hashes}
@@ -531,7 +553,18 @@ func c18Run(j *orch.Job, r *orch.Result) error {
 		if err := n.WaitSynced(segEnd, harness.WaitOpts{Watchdog: 300 * time.Second}); err != nil {
 			atomic.StoreInt32(&stopClients, 1)
 			wg.Wait()
-			return fmt.Errorf("sync under API load: %v", err)
+			if errors.Is(err, harness.ErrFatal) {
+				// the same chain was applied twice before without concurrent requests (forging, reference answers)
+				cls := reNum.ReplaceAllString(reHex.ReplaceAllString(harness.LastDaemonError(), "H"), "N")
+				if len(cls) > 90 {
+					cls = cls[:90]
+				}
+				r.Violate("C18", "daemon-exited-under-api-load err="+cls,
+					fmt.Sprintf("the daemon called log.Fatal (process exit) while applying a block of segment %d..%d under concurrent API requests; the same chain syncs without them. last daemon error: %s", segStart, segEnd, harness.LastDaemonError()),
+					map[string]interface{}{"seed": p.Seed, "segment": []uint32{segStart, segEnd}, "aborted_requests_so_far": atomic.LoadInt64(&aborted)})
+				return nil
+			}
+			return fmt.Errorf("sync under API load: %v; last daemon error: %s", err, harness.LastDaemonError())
 		}
 		time.Sleep(30 * time.Millisecond) // let in-flight requests finish inside the segment
 		rmu.Lock()
@@ -705,7 +738,7 @@ func checkC18(c *Ctx) *orch.Outcome {
 		"Distinct non-trivial = responses whose request interval overlapped a commit (committed height before ≠ after), counted."
 	o.Assumptions = []string{
 		"schedules are sampled (client counts, injected delays between statements and before COMMIT), not enumerated; detection is probabilistic, alarms are sound under any timing",
-		"pUSD equivalents in rich lists are not compared (they come from the cache under test); factomheight is not compared",
+		"pUSD equivalents in rich lists are not compared (they come from the cache under test); factomheight is not compared; the global rich list's answer and get-miner-distribution's stopheight are not compared (assembled from reads that may straddle a commit, which the property allows)",
 		"responses assembled from two independent reads are judged per part",
 		"late-era layout (all rules active), averaging window 12",
 	}
@@ -730,6 +763,14 @@ func checkC18(c *Ctx) *orch.Outcome {
 			o.Inconclusive = append(o.Inconclusive, fmt.Sprintf("%s crashed: %s", prepJobs[i].Name, clipS(r.Stderr, 600)))
 		}
 	}
+	// a chain whose sequential pass already ended in a violation has no reference answers: its concurrent run is dropped
+	var runnable []orch.Job
+	for i := range jobs {
+		if pr[i].Info["prep_failed"] == nil {
+			runnable = append(runnable, jobs[i])
+		}
+	}
+	jobs = runnable
 	rs := c.R.Run(jobs)
 	o.Merge(rs)
 	raceSigs := map[string]string{}
